@@ -31,7 +31,9 @@ K_DOT = "linkname:dot-in-last-path-element"
 K_WRAP = "linkname:bound-thunk-receiver-package-dropped"
 K_ROUTINE = "linkname:routine-name-vs-user-closure"
 K_STUB = "linkname:stub-prefix-vs-package-path"
+K_LOCAL = "linkname:local-type-wrapper-scope-dropped"
 PATCH = "github.com/goplus/llgo/runtime/internal/lib/"
+SYNTH = ("bound", "thunk", "wrapper", "local-bound", "local-thunk", "local-wrapper")
 MERGEABLE = {"linkonce", "linkonce_odr", "weak", "weak_odr", "common"}
 
 
@@ -85,10 +87,28 @@ def gen_fn(rng):
     return "M %s %s %d%s %d %s" % (hx(pkg), hx(recv), k, targs, rng.randint(0, 1), hx(rng.choice(IDENTS)))
 
 
+def gen_wn(rng):
+    """receiver of a synthetic function: any package (also another one than the compiled package), maybe function-local"""
+    recv = rng.choice(list(ARITY))
+    k = ARITY[recv]
+    targs = "".join(" " + gen_ty(rng, 2) for _ in range(k))
+    sc = [] if rng.random() < 0.6 else [rng.randint(0, 3) for _ in range(rng.randint(1, 3))]
+    pkg = rng.choice(PKGS)
+    cur = pkg if rng.random() < 0.4 else rng.choice(PKGS)
+    name = rng.choice(IDENTS) + rng.choice(["", "$bound", "$thunk"])
+    return "%s %s %s %s %d%s %d%s %d" % (hx(cur), hx(name), hx(pkg), hx(recv), k, targs, len(sc), "".join(" %d" % i for i in sc), rng.randint(0, 1))
+
+
+WITNESS_WN = "%s %s %s %s 0 0 0" % ("m".encode().hex(), "M$bound".encode().hex(), "m/a".encode().hex(), "T".encode().hex())
+
+
 def term_paths(term):
     """package paths mentioned in a term (hex fields following F/M/G/N tags)"""
     t = term.split(" ")
-    return [uh(t[i + 1]) for i, x in enumerate(t[:-1]) if x in ("F", "M", "G", "N") and re.fullmatch(r"-|([0-9a-f]{2})+", t[i + 1])]
+    out = [uh(t[i + 1]) for i, x in enumerate(t[:-1]) if x in ("F", "M", "G", "N") and re.fullmatch(r"-|([0-9a-f]{2})+", t[i + 1])]
+    if t[0] == "L":
+        out.insert(0, uh(t[2]))
+    return out
 
 
 def dotted_last(p):
@@ -276,6 +296,22 @@ def run(ctx, args):  # noqa: C901
         out = model(["hyp " + t for t in terms])
         return [tuple(x == "1" for x in o.split(" ")[1:3]) if o.startswith("ok ") else (False, False) for o in out]
 
+    # ---------------------------------------------------------------- which naming variant is live?
+    # (replayed end to end below: the witness program of harness/c14/progs.py must behave accordingly)
+    rw, _, errw = run_lines([harness], ["wn " + WITNESS_WN])
+    mw = model(["wn 0 " + WITNESS_WN, "wn 1 " + WITNESS_WN])
+    if len(rw) != 1:
+        raise HarnessBuildError("harness died on the witness request:\n" + errw[-2000:])
+    if rw[0] == mw[0]:
+        cfg = 0
+    elif rw[0] == mw[1]:
+        cfg = 1
+    else:
+        cfg = 0
+        mismatches.append(("wn " + WITNESS_WN, rw[0], mw))
+    ctx.log("live naming of synthetic functions: %s (%s)" % (["as pinned (receiver without package / scope)", "with fixes/C14-1.diff (qualified receiver)"][cfg], uh(rw[0][3:]) if rw[0].startswith("ok ") else rw[0]))
+    stats["variant"] = ["legacy", "fixed"][cfg]
+
     # ---------------------------------------------------------------- I.1 constructed go/types objects
     n = 3000 if quick else 60000
     reqs = []
@@ -288,14 +324,16 @@ def run(ctx, args):  # noqa: C901
         k = i % 10
         if k < 5:
             reqs.append("ty " + gen_ty(rng))
-        elif k < 9:
+        elif k < 7:
             reqs.append("fn " + gen_fn(rng))
+        elif k < 9:
+            reqs.append("wn " + gen_wn(rng))
         else:
             reqs.append("gl G %s %s" % (hx(rng.choice(PKGS)), hx(rng.choice(IDENTS))))
     real, rc, err = run_lines([harness], reqs)
     if len(real) != len(reqs):
         raise HarnessBuildError("harness died on the constructed route: %d/%d answers\n%s" % (len(real), len(reqs), err[-2000:]))
-    mod = model(reqs)
+    mod = model([("wn %d %s" % (cfg, q[3:])) if q.startswith("wn ") else q for q in reqs])
     byname = {}
     for q, r, m in zip(reqs, real, mod):
         n_eval += 1
@@ -305,8 +343,11 @@ def run(ctx, args):  # noqa: C901
             nontrivial.add(q)
         if r != m:
             mismatches.append((q, r, m))
-        if r.startswith("ok "):
+        if r.startswith("ok ") and op != "wn":
             byname.setdefault((op, r.split(" ")[1]), set()).add(q[3:])
+        elif r.startswith("ok "):
+            # synthetic functions: (compiled package, name) must determine receiver type and method
+            byname.setdefault((op, q.split(" ")[1] + ":" + r.split(" ")[1]), set()).add(q[3:])
     samples.append({"request": reqs[len(corpus) + 1], "real": real[len(corpus) + 1], "decoded": [uh(x) for x in real[len(corpus) + 1].split(" ")[1:]]})
     # spec on the real answers: two different terms never share a rendered name
     for (op, name), terms in sorted(byname.items()):
@@ -319,9 +360,15 @@ def run(ctx, args):  # noqa: C901
             if len(canon) < 2:
                 continue
         paths = [p for t in terms for p in term_paths(t)]
+        if op == "wn":
+            cur_h, name = name.split(":")
+            paths = [uh(x) for t in terms for x in t.split(" ")[0:3:2]]
         what = "%s: %d different terms rendered as %r by the real code: %s" % (op, len(terms), uh(name), terms[:3])
         spec_failures.append(what)
-        if any(dotted_last(p) for p in paths):
+        if op == "wn" and cfg == 0:
+            # legacy naming: the receiver's package and scope are not in the name
+            ctx.report(K_LOCAL if len(set(t.split(" ")[2] for t in terms)) == 1 else K_WRAP, what, {"terms": terms, "name": uh(name)})
+        elif any(dotted_last(p) for p in paths):
             ctx.report(K_DOT, what, {"terms": terms, "name": uh(name)})
         else:
             report_capped("constructed", "linkname:collision:" + uh(name), what, {"terms": terms, "name": uh(name)})
@@ -336,7 +383,7 @@ def run(ctx, args):  # noqa: C901
     trees.append(("main", f1, ids1, order1, "m"))
     f2, ids2, order2 = progs.dotted_path_program()
     trees.append(("dotted", f2, ids2, order2, "m"))
-    f3, ids3, order3 = progs.wrapper_collision_program()
+    f3, ids3, order3, exp3 = progs.wrapper_collision_program()
     trees.append(("wrapper", f3, ids3, order3, "m"))
     f4, exp4, binds4, order4 = progs.linkname_program()
     trees.append(("linkname", f4, None, order4, "m"))
@@ -357,7 +404,7 @@ def run(ctx, args):  # noqa: C901
         req, meta = [], []
         for r in rows:
             for (cur, name, ft) in r["cols"]:
-                req.append("sym %s %s %s" % (hx(cur), tenc, r["term"]))
+                req.append("sym %d %s %s %s" % (cfg, hx(cur), tenc, r["term"]))
                 meta.append((r, cur, name))
         out = model(req)
         for q, (r, cur, name), m in zip(req, meta, out):
@@ -367,20 +414,20 @@ def run(ctx, args):  # noqa: C901
             if name is None or m != "ok " + hx(name):
                 mismatches.append((q, name, uh(m[3:]) if m.startswith("ok ") else m))
         # property, judged on the real names: (1) all referring packages agree; (2) different entities, different names
-        hy = hyp([r["term"] for r in rows])
+        hy = hyp([r["term"] if not r["term"].startswith("L ") else "RT - 0" for r in rows])
         seen = {}
         for r, (cov, syn) in zip(rows, hy):
             names = set(nm for (_, nm, _) in r["cols"])
             if len(names) > 1:
                 stats["context-dependent-" + r["kind"]] = stats.get("context-dependent-" + r["kind"], 0) + 1
-                if r["kind"] not in ("bound", "thunk", "wrapper"):
+                if r["kind"] not in SYNTH:
                     spec_failures.append("referring packages disagree on the name of %s: %s" % (r["str"], sorted(names)))
                     report_capped("ctx", "linkname:context-dependent:" + r["str"], "referring packages disagree on a name", {"entity": r["str"], "names": sorted(map(str, names)), "files": files})
             owner = (term_paths(r["term"]) or [None])[0]
             for (cur, nm, ft) in r["cols"]:
-                if r["kind"] == "wrapper" and cur != owner:
+                if r["kind"] in ("wrapper", "local-wrapper") and cur != owner:
                     continue      # method wrappers are only ever compiled by the package that declares the receiver type
-                key = (cur, nm) if r["kind"] in ("bound", "thunk", "wrapper") else ("*", nm)
+                key = (cur, nm) if r["kind"] in SYNTH else ("*", nm)
                 seen.setdefault(key, {})[r["term"]] = (r, cov)
         for (cur, nm), ents in sorted(seen.items(), key=lambda kv: str(kv[0])):
             ents = {t: v for t, v in ents.items() if all(ft.split(".")[0] == "1" for (_, _, ft) in v[0]["cols"])}
@@ -399,6 +446,8 @@ def run(ctx, args):  # noqa: C901
                 ctx.report(K_DOT, what, {"entities": strs, "name": nm, "files": files})
             elif kinds <= {"bound", "thunk"}:
                 ctx.report(K_WRAP, what, {"entities": strs, "name": nm, "files": files})
+            elif kinds <= {"local-bound", "local-thunk", "local-wrapper"}:
+                ctx.report(K_LOCAL, what, {"entities": strs, "name": nm, "files": files})
             else:
                 report_capped("inproc", "linkname:collision:%s" % nm, what, {"entities": strs, "name": nm, "files": files})
     samples.append({"tree": "main", "entity": inproc["main"][len(inproc["main"]) // 2]["str"], "names": inproc["main"][len(inproc["main"]) // 2]["cols"][:2]})
@@ -559,19 +608,38 @@ def run(ctx, args):  # noqa: C901
     else:
         stats["dotted-program-ok"] = 1
 
-    # --- same-named receiver types of different packages used as method values / method expressions
+    # --- witness program of the receiver-rendering defects: same-named receiver types of different packages used as
+    #     method values / method expressions (lines 1, 2), promoted methods of same-named function-local types (line 3)
     p, mods, out, ref = joined(ts[1], "wrapper")
     ctx.log("wrapper program: rc=%s" % p.returncode)
-    n_eval += 1
-    if p.returncode != 0 or ref is None or out[1] != ref[1]:
-        what = "method values a.T.M, T.M, b.T.M taken in one package: llgo prints %r, the reference toolchain %r" % (
-            out[1] if out else (p.stdout + p.stderr)[-300:], ref[1] if ref else None)
+    n_eval += 3
+    refl = [l for l in ref[1].split("\n") if l and not l.startswith("7")] if ref else None
+    if refl is not None and refl != exp3:
+        mismatches.append(("reference toolchain on the witness program", refl, exp3))
+    if p.returncode != 0:
+        what = "witness program (method values of same-named types, same-named local types) does not build: " + (p.stdout + p.stderr)[-400:]
         spec_failures.append(what)
-        mods_m = [m for m in mods if m.id == "w"]
-        wr = sorted(nm for m in mods_m for nm in m.defs if nm.endswith("$bound") or nm.endswith("$thunk"))
-        ctx.report(K_WRAP if wr == ["w.T.M$bound", "w.T.M$thunk"] else "linkname:wrapper-program:" + ",".join(wr), what, {"files": f3, "wrappers": wr})
+        ctx.report("linkname:wrapper-program-build", what, {"files": f3, "output": (p.stdout + p.stderr)[-2000:]})
     else:
-        stats["wrapper-program-ok"] = 1
+        got = [l for l in out[1].split("\n") if l and not l.startswith("7")]
+        mods_m = [m for m in mods if m.id == "w"]
+        wr = sorted(nm for m in mods_m for nm in m.defs if "$bound" in nm or "$thunk" in nm)
+        lw = sorted(nm for m in mods_m for nm in m.defs if re.search(r"\bL[.)]", nm))
+        if len(got) != 3:
+            got = (got + ["?", "?", "?"])[:3]
+        if got[0] != exp3[0] or got[1] != exp3[1]:
+            what = "method values / method expressions a.T.M, T.M, b.T.M taken in one package: llgo prints %r and %r, Go specifies %r (wrappers defined: %s)" % (got[0], got[1], exp3[0], wr)
+            spec_failures.append(what)
+            ctx.report(K_WRAP if wr == ["w.T.M$bound", "w.T.M$thunk"] else "linkname:wrapper-program:" + ",".join(wr), what, {"files": f3, "wrappers": wr})
+        if got[2] != exp3[2]:
+            what = "promoted methods of two function-local types named L (f: struct{A}, g: struct{B}): llgo prints %r, Go specifies %r (method symbols: %s)" % (got[2], exp3[2], lw)
+            spec_failures.append(what)
+            ctx.report(K_LOCAL if lw == ["w.(*L).M", "w.L.M"] else "linkname:local-type-program:" + ",".join(lw), what, {"files": f3, "symbols": lw})
+        ok_e2e = got == exp3
+        stats["witness-program"] = "correct" if ok_e2e else "wrong: " + " | ".join(got)
+        if (cfg == 1) != ok_e2e:
+            # the in-process variant detection and the compiled witness must tell the same story
+            mismatches.append(("variant detected in-process: %s; witness program output %r" % (["legacy", "fixed"][cfg], got), None, None))
 
     # --- //go:linkname and //export bind exactly the declared symbol
     p, mods, out, ref = joined(ts[2], "linkname")
